@@ -36,11 +36,27 @@ def build(tier, seed):
                                              ("; 0 <= |out| <= min other |in|" if mag == "true" else "")},
                                   2.0 + d * d, stubs="CONTRACT"),
                           "crate::c04_check_f!(c04_check_%s_d%d, %s, %s, crate::macros::any_%s_1e30, %d, %d, %s, %s);" % (n, d, n, f, f, d, d + 3, sign, mag)))
+    # formula level for the float rules (SURROGATE math, exact small domain)
+    fdegs = [2, 3] if tier == "quick" else [2, 3, 4]
+    for t in arith.float_types():
+        n, f, base = t["name"], t["f"], t["base"]
+        fam = {"Phi": 0, "Tanh": 1, "Minstarapprox": 2, "Aminstar": 3}[base]
+        clamp = "18.0" if f == "f64" else "9.0"
+        for d in fdegs:
+            if tier == "quick" and d == 3 and f == "f32" and base in ("Phi", "Tanh"):
+                continue
+            hn = "c04_formula_%s_d%d" % (n, d)
+            dom = "tiny" if (base == "Aminstar" and d >= 3) else "small"   # A-Min* at degree 3: symbolic argmin + float miter (> 300 s on s in [-127,127])
+            items.append((Harness(hn, {"type": n, "degree": d, "input": "%d messages on the exact domain s/8, s in %s" % (d, "[-7,7]" if dom == "tiny" else "[-127,127]"),
+                                        "oracle": "documented formula of the %s rule evaluated with the same SURROGATE elementary functions (all operations exact on the domain, so algebraically equivalent implementations agree bit for bit)" % base},
+                                  4.0 + d * d, stubs="SURROGATE", neighbourhood=True),
+                          "crate::c04_formula_f!(%s, %s, %s, crate::macros::any_%s_%s, %d, %s, %d, %d);" % (hn, n, f, f, dom, fam, clamp, d, d + 3)))
     meta = {
         "functions": ["DecoderArithmetic::send_check_messages for each of the 24 arithmetic types (one harness per monomorphisation and degree)",
                       "impl_8bitquant!::{new, lookup}", "partial_hard_limit!", "the table round(8*ln(1+exp(-t/8))) built by new() (compared with an independently computed copy through the reference rule)"],
         "bounds": {"degrees_8bit": degs_i8, "degrees_float": degs_f, "unwind": "degree+3; table loop 26 via --unwindset"},
         "outside": ["degrees above the listed ones (statement: up to ~30)",
+                    "float rules at formula level hold for the SURROGATE interpretation of tanh/atanh/ln/exp/ln_1p on the exact domain s/8 (a statement about which operands and folds the rule uses, not about numerical accuracy)",
                     "agreement of Phi/Tanh/A-Min* with 2*atanh(prod tanh(x/2)) and the (d-2)*ln2 band of min* (transcendental values have no faithful solver semantics here)",
                     "sign and magnitude clauses of Aminstarf32/64 (no floor at 0 in the code: sign of a rounding-noise-sized result is not decided by the CONTRACT stubs)",
                     "magnitude clause of Phi/Tanh float types"],
